@@ -18,8 +18,9 @@ RandInterest(i) ==
   LET p == RandomElement({-1, -1, 0, 252, 253, 3000})
   IN [comps |-> RandomElement(Names \ {<<>>}), cbp |-> RandomElement(BOOLEAN), mbf |-> RandomElement(BOOLEAN), hints |-> RandomElement(HintSets),
       nonce |-> RandomElement(BOOLEAN), life |-> RandomElement({-1, 0, 255, 256, 65536}), hop |-> RandomElement({-1, 0, 255}), params |-> p,
-      \* a signed Interest always carries parameters
-      signer |-> (IF p >= 0 THEN RandomElement({"none", "sha256int", "hmacint", "ecdsaint"}) ELSE "none"), split |-> RandomElement({1, 2, 3}), id |-> i]
+      \* a signed Interest carries parameters; asking for a signature WITHOUT parameters (one draw in six) must either be refused
+      \* or give a packet that decodes and verifies (I_C12built exempts the refusal, I_C12interest judges the packet)
+      signer |-> (IF p >= 0 \/ RandomElement(1..6) = 1 THEN RandomElement({"none", "sha256int", "hmacint", "ecdsaint"}) ELSE "none"), split |-> RandomElement({1, 2, 3}), id |-> i]
 \* sweeps across the 1-byte / 3-byte TLV-LENGTH boundary of the OUTER length for signers whose signature is shorter
 \* than their estimate (ECDSA: the encoder shrinks the packet after signing)
 SweepData == [c \in 1..90 |-> [kind |-> "data", s |-> [comps |-> << [t |-> 8, vlen |-> 1] >>, ct |-> -1, fresh |-> -1, fbid |-> -1, content |-> 100 + c,
